@@ -135,6 +135,36 @@ theorem extent_within_one_sample (n : Int) (px s : K) (hp : 0 < px) (hs : 0 < s)
     calc px / s * (S - n * s) < px / s * 1 := mul_lt_mul_of_pos_left (by linarith) hq
       _ = px / s := mul_one _
 
+/-- how far the interpolation grid reaches beyond the input sample centres `0 … n−1` (the rim the mask's `mode='constant'` zeroes):
+the first output sample sits at a coordinate in `(−1/(2s), 0]` and the last one in `[n − 1/s, n − 1/(2s))` — so for `s > 1` the
+last sample lies beyond the last input centre `n − 1`, by less than half an input pixel, and for `s ≤ 1/2`… never beyond it -/
+theorem grid_rim_bounds (n : Int) (s : K) (hs : 0 < s) :
+    let S := outShape Int.ceil (fun k => (k : K)) n s
+    (-(1 / (2 * s)) < coord (fun k => (k : K)) (2 : K) S n s 0 ∧ coord (fun k => (k : K)) (2 : K) S n s 0 ≤ 0) ∧
+    ((n : K) - 1 / s ≤ coord (fun k => (k : K)) (2 : K) S n s (S - 1) ∧ coord (fun k => (k : K)) (2 : K) S n s (S - 1) < (n : K) - 1 / (2 * s)) := by
+  intro S
+  obtain ⟨_, h1, h2⟩ := rescale_shape (K := K) n s
+  have hs' : s ≠ 0 := ne_of_gt hs
+  have e0 : coord (fun k => (k : K)) (2 : K) S n s 0 = ((n : K) * s - (S : K)) / (2 * s) := by
+    unfold coord; push_cast; field_simp; ring
+  have e1 : coord (fun k => (k : K)) (2 : K) S n s (S - 1) = ((S : K) - 2 + (n : K) * s) / (2 * s) := by
+    unfold coord; push_cast; field_simp; ring
+  have h2s : 0 < 2 * s := by linarith
+  refine ⟨⟨?_, ?_⟩, ⟨?_, ?_⟩⟩
+  · rw [e0, neg_lt, ← neg_div, div_lt_div_iff_of_pos_right h2s]; linarith
+  · rw [e0]; exact div_nonpos_of_nonpos_of_nonneg (by linarith) h2s.le
+  · rw [e1, show (n : K) - 1 / s = (2 * (n : K) * s - 2) / (2 * s) by field_simp, div_le_div_iff_of_pos_right h2s]; linarith
+  · rw [e1, show (n : K) - 1 / (2 * s) = (2 * (n : K) * s - 1) / (2 * s) by field_simp, div_lt_div_iff_of_pos_right h2s]; linarith
+
+/-- per axis: on a plane sampled at `(px0, px1)` each axis keeps its physical extent to within one sample of ITS new pixel scale -/
+theorem extent_within_one_sample_per_axis (n0 n1 : Int) (px0 px1 s : K) (h0 : 0 < px0) (h1 : 0 < px1) (hs : 0 < s) :
+    ∃ q, planePixelscale (some (px0, px1)) s = some q ∧
+      (0 ≤ q.1 * (outShape Int.ceil (fun k => (k : K)) n0 s : K) - px0 * n0 ∧ q.1 * (outShape Int.ceil (fun k => (k : K)) n0 s : K) - px0 * n0 < q.1) ∧
+      (0 ≤ q.2 * (outShape Int.ceil (fun k => (k : K)) n1 s : K) - px1 * n1 ∧ q.2 * (outShape Int.ceil (fun k => (k : K)) n1 s : K) - px1 * n1 < q.2) := by
+  refine ⟨(px0 / s, px1 / s), by simp [planePixelscale, Gen.prPixelscale], ?_, ?_⟩
+  · exact extent_within_one_sample n0 px0 s h0 hs
+  · exact extent_within_one_sample n1 px1 s h1 hs
+
 /-- at scale 1 the output grid has the input's shape and every output sample is interpolated at its own integer coordinate -/
 theorem rescale_one_coordinates_are_integers (n j : Int) :
     outShape Int.ceil (fun k => (k : K)) n (1 : K) = n ∧
